@@ -1031,6 +1031,10 @@ func (in *Interp) eval(st *State, e ast.Expr) []valState {
 						continue
 					}
 				}
+				if v, ok := in.tableLookup(e.X, i.v); ok {
+					out = append(out, valState{i.st, v})
+					continue
+				}
 				out = append(out, valState{i.st, Value{K: vUnknown, T: in.c.typeOf(e)}})
 			}
 		}
@@ -1141,7 +1145,14 @@ func (in *Interp) binop(l Value, op token.Token, r Value) Value {
 	}
 	switch op {
 	case token.ADD, token.SUB, token.MUL:
-		return in.arith(l, op, r)
+		if v := in.arith(l, op, r); v.K != vUnknown {
+			return v
+		}
+		if l.K == vTag || r.K == vTag {
+			// keep the shape of expressions over opaque values (a + f(b))
+			return tagV("binop", l.String()+" "+op.String()+" "+r.String())
+		}
+		return unknownV()
 	case token.EQL, token.NEQ:
 		ll, ok1 := l.asLin()
 		rl, ok2 := r.asLin()
@@ -1394,4 +1405,77 @@ func (in *Interp) inlineBody(st *State, ft *ast.FuncType, body *ast.BlockStmt, r
 		}
 	}
 	return out
+}
+
+// tableLookup evaluates table[key] for a package-level (or single-assignment
+// local) variable initialised with a composite literal keyed by constants,
+// when the key is a known constant: lookup tables are data, like switches.
+func (in *Interp) tableLookup(x ast.Expr, key Value) (Value, bool) {
+	if key.K != vConst {
+		return Value{}, false
+	}
+	id, ok := stripParens(x).(*ast.Ident)
+	if !ok {
+		return Value{}, false
+	}
+	lit := in.c.tableLiteral(in.c.objOf(id))
+	if lit == nil {
+		return Value{}, false
+	}
+	_, isMap := in.c.typeOf(lit).Underlying().(*types.Map)
+	next := int64(0)
+	for _, el := range lit.Elts {
+		var k constant.Value
+		val := el
+		if kv, ok := el.(*ast.KeyValueExpr); ok {
+			k = in.c.constOf(kv.Key)
+			val = kv.Value
+			if k != nil && k.Kind() == constant.Int {
+				if iv, ok := constant.Int64Val(k); ok {
+					next = iv
+				}
+			}
+		} else {
+			k = constant.MakeInt64(next)
+		}
+		next++
+		if k == nil || !comparable(k, key.C) || !constant.Compare(k, token.EQL, key.C) {
+			continue
+		}
+		return in.literalValue(val), true
+	}
+	if isMap {
+		// a miss yields the zero value
+		return in.zeroOf(in.c.typeOf(lit).Underlying().(*types.Map).Elem()), true
+	}
+	return Value{}, false
+}
+
+// literalValue renders a literal element: constants, nil, lists of constants.
+func (in *Interp) literalValue(e ast.Expr) Value {
+	e = stripParens(e)
+	if cv := in.c.constOf(e); cv != nil {
+		v := constV(cv)
+		v.T = in.c.typeOf(e)
+		return v
+	}
+	switch x := e.(type) {
+	case *ast.Ident:
+		if x.Name == "nil" {
+			return tagV("nil", nil)
+		}
+		if f, ok := in.c.objOf(x).(*types.Func); ok {
+			return Value{K: vFunc, FnObj: f}
+		}
+	case *ast.CompositeLit:
+		list := Value{K: vList}
+		for _, el := range x.Elts {
+			if _, isKV := el.(*ast.KeyValueExpr); isKV {
+				return Value{K: vUnknown, T: in.c.typeOf(e)}
+			}
+			list.Tup = append(list.Tup, in.literalValue(el))
+		}
+		return list
+	}
+	return Value{K: vUnknown, T: in.c.typeOf(e)}
 }
